@@ -107,6 +107,27 @@ def IsTopOf (n : Int) (input out : List Item) : Prop :=
     out.Pairwise (fun a b => ¬ itemLess a b) ∧
     ∀ r ∈ rest, ∀ o ∈ out, ¬ itemLess o r
 
+/-- the ordinary merge of two key-sorted lists (the first list wins ties) -/
+def mergeRef (lt : Val → Val → Bool) : List Item → List Item → List Item
+  | [], js => js
+  | b :: bs, [] => b :: bs
+  | b :: bs, j :: js =>
+    if lt j.1 b.1 then j :: mergeRef lt (b :: bs) js else b :: mergeRef lt bs (j :: js)
+
+/-- `j`'s key does not occur in `base` -/
+def absentFrom (base : List Item) (j : Item) : Bool := base.all fun b => decide (b.1 ≠ j.1)
+
+/-- `b6.Less` / `b6.Equal` restricted to a set `S` of keys behave as a strict total order `lt` and equality -/
+structure KeyOrder (S : Val → Prop) (lt : Val → Val → Bool) : Prop where
+  less : ∀ a b, S a → S b → goLess a b = some (lt a b)
+  equal : ∀ a b, S a → S b → goEqual a b = some (decide (a = b))
+  irrefl : ∀ a, S a → lt a a = false
+  trans : ∀ a b c, S a → S b → S c → lt a b = true → lt b c = true → lt a c = true
+  total : ∀ a b, S a → S b → lt a b = true ∨ a = b ∨ lt b a = true
+
+/-- keys never decrease -/
+def KeySorted (lt : Val → Val → Bool) (l : List Item) : Prop := l.Pairwise fun x y => lt y.1 x.1 = false
+
 /-! ## compositions: the reference meaning of a `Co` expression -/
 
 def srcOf (d : Den) : Option Src := d.src?
